@@ -379,6 +379,26 @@ Theorem C13_swap_negates_numpy :
 Proof. exact registration_swap_numpy. Qed.
 Print Assumptions C13_swap_negates_numpy.
 
+(* torch estimator, upsample_factor <= 2 (half-pixel rounding, round-half-even is odd): same statement.
+   For factors > 2 the torch window (ceil(1.5 up) samples, centre floor(./2)) is not symmetric for even
+   sizes; that case is exercised by the check only. *)
+Theorem C13_swap_negates_torch :
+  forall (R : Type) (rO rI : R) (radd rmul rsub : R -> R -> R) (ropp : R -> R),
+    ring_theory rO rI radd rmul rsub ropp eq ->
+    forall conj : R -> R, conj_ok radd rmul conj ->
+    forall (N1 : nat) (w1 : Z -> R) (Ninv1 : R) (N2 : nat) (w2 : Z -> R) (Ninv2 : R),
+    root_ok rO rI radd rmul conj N1 w1 Ninv1 -> root_ok rO rI radd rmul conj N2 w2 Ninv2 ->
+    forall re : R -> Q, (forall z : R, (re (conj z) == re z)%Q) ->
+    forall (ref im : nat -> nat -> R) (up : nat) (ups ups' : Q -> Q -> nat -> nat -> Q) (p q : nat),
+    2 <= N1 -> 2 <= N2 -> up <= 2 ->
+    uniq_max N1 N2 (ccQ R rO radd rmul conj N1 w1 Ninv1 N2 w2 Ninv2 re ref im) p q ->
+    exists a b a' b' : Q,
+      torch_shift N1 N2 up (ccQ R rO radd rmul conj N1 w1 Ninv1 N2 w2 Ninv2 re ref im) ups = Some (a, b) /\
+      torch_shift N1 N2 up (ccQ R rO radd rmul conj N1 w1 Ninv1 N2 w2 Ninv2 re im ref) ups' = Some (a', b') /\
+      neg_mod N1 a a' /\ neg_mod N2 b b'.
+Proof. exact registration_swap_torch. Qed.
+Print Assumptions C13_swap_negates_torch.
+
 (* ============================================================================ sub-pixel (partial) *)
 (* PARTIAL.  With upsampling the NumPy estimator returns, centred, the position of the largest
    window sample plus a correction of at most half an upsampled pixel.  NOT proved (validated on
@@ -454,6 +474,13 @@ Example C13_nonvacuous_swap_numpy :
     np_shift 4 4 None 2 (ccQ C c0 cadd cmul cconj 4 w4 quarter 4 w4 quarter reC im4 ref4) (peak_win (du 2)) = Some (a', b') /\
     neg_mod 4 a a' /\ neg_mod 4 b b'.
 Proof. exact inst_swap_numpy. Qed.
+
+Example C13_nonvacuous_swap_torch :
+  exists a b a' b' : Q,
+    torch_shift 4 4 2 (ccQ C c0 cadd cmul cconj 4 w4 quarter 4 w4 quarter reC ref4 im4) (peak_win 0) = Some (a, b) /\
+    torch_shift 4 4 2 (ccQ C c0 cadd cmul cconj 4 w4 quarter 4 w4 quarter reC im4 ref4) (peak_win 0) = Some (a', b') /\
+    neg_mod 4 a a' /\ neg_mod 4 b b'.
+Proof. exact inst_swap_torch. Qed.
 
 Example C13_nonvacuous_swap_value :
   match np_shift 4 4 None 2 (ccQ C c0 cadd cmul cconj 4 w4 quarter 4 w4 quarter reC im4 ref4) (peak_win (du 2)) with
